@@ -78,7 +78,7 @@ theorem plainLine_repeat (ce : Str) : plainLine ("REPEAT ".toList ++ ce) = true 
   rw [h]
   exact (plainLine_word "REPEAT".toList ce (by decide) (by decide) (by decide)).2
 
-theorem hspec_plain : HSpec knownLine (fun l => plainLine l = true) where
+theorem hspec_plain : HSpec knownLine (fun l => plainLine l = true) (fun _ => True) where
   nonblank := by
     intro s hb h
     unfold knownLine at h
@@ -86,7 +86,7 @@ theorem hspec_plain : HSpec knownLine (fun l => plainLine l = true) where
     · cases h
     · rename_i heq; rw [heq]; simp
   blockDone := by
-    intro ctx content word arg block cl hq hsplit hd hblk line st o hpre l hl
+    intro ctx content word arg block cl _ hq hsplit hd hblk line st o hpre l hl
     rcases blockPre_done_out _ _ _ _ _ _ _ _ _ hpre with h | h | ⟨ce, h⟩
     · rw [h] at hl; cases hl
     · exfalso
@@ -96,7 +96,7 @@ theorem hspec_plain : HSpec knownLine (fun l => plainLine l = true) where
       simp [hu] at hq
     · rw [h] at hl; simp only [List.mem_singleton] at hl; subst hl; exact plainLine_repeat ce
   emit := by
-    intro ctx content word arg block cl hq hsplit hd hnr hns line st name items st' hpre a ha st2 rc hrc l hl
+    intro ctx content word arg block cl _ hq hsplit hd hnr hns line st name items st' hpre a ha st2 rc hrc l hl
     -- the command is a known one
     have hdisp : dispatch word (hasBlockOf block) = some cl ∧ cl.isBlock = false := by
       rcases hd with hd | hd
